@@ -281,9 +281,91 @@ func ShapeOf(p *ir.Program) string {
 	return b.String()
 }
 
+// probesOf derives named rare conditions from a run (the evidence's `probes`: a probe stuck at
+// zero means the workload or fault mix never reached that condition).
+func probesOf(c *Case, r *harness.Result) []string {
+	var out []string
+	has := func(k string) bool { return r.Fired[k] > 0 }
+	if has("caller_cancel") {
+		out = append(out, "caller_cancelled")
+		executing := false
+		started := map[int]bool{}
+		for _, e := range r.Events {
+			switch e.Kind {
+			case "exec-start":
+				started[e.Dep] = true
+			case "exec-end":
+				delete(started, e.Dep)
+			case "client":
+				if e.Data["what"] == "cancel" && len(started) > 0 {
+					executing = true
+				}
+			}
+		}
+		if executing {
+			out = append(out, "cancel_while_a_plugin_executes")
+		}
+		if has("cancel_during_deploy") {
+			out = append(out, "cancel_during_deploy")
+		}
+	}
+	if len(r.Snapshots) > 0 {
+		out = append(out, "fallback_detector_gave_up")
+	}
+	if r.SitesHit["workflow/workflow.go:674:5"] > 0 || detectorRetry(r) {
+		out = append(out, "deadlock_retry_fired")
+	}
+	if has("plugin_ignores_cancel") {
+		out = append(out, "closure_timeout_path")
+	}
+	if r.Stats.VoluntaryTime > 0 && r.Stats.Preemptions > 0 {
+		out = append(out, "starved_and_preempted")
+	}
+	if len(r.Clients) > 1 {
+		overlap := false
+		for i, a := range r.Clients {
+			for j, b := range r.Clients {
+				if i < j && a.Returned && b.Returned && a.StartSeq < b.EndSeq && b.StartSeq < a.EndSeq {
+					overlap = true
+				}
+			}
+		}
+		if overlap {
+			out = append(out, "runs_overlapped")
+		}
+	}
+	for _, cl := range r.Clients {
+		if cl.Returned && cl.Err == "" {
+			out = append(out, "run_returned_output")
+		}
+		if cl.Returned && cl.Err != "" {
+			out = append(out, "run_returned_error:"+cl.ErrClass)
+		}
+	}
+	if r.PrepareErr != "" {
+		out = append(out, "prepare_rejected")
+	}
+	if r.Stats.Divergences > 0 {
+		out = append(out, "replay_divergence")
+	}
+	return out
+}
+
+func detectorRetry(r *harness.Result) bool {
+	for site, n := range r.SitesHit {
+		if n > 0 && SiteFunc[strings.TrimPrefix(site, "go:")] == "*loopState.checkForDeadlocks" && SiteKind[strings.TrimPrefix(site, "go:")] == "go" {
+			return true
+		}
+	}
+	return false
+}
+
 // Add accounts one run.
 func (st *Stats) Add(c *Case, r *harness.Result) {
 	st.Runs++
+	for _, p := range probesOf(c, r) {
+		st.Probes[p]++
+	}
 	st.Decisions += r.Stats.Decisions
 	st.SimTimeUS += int64(r.Stats.SimTime.Microseconds())
 	st.TimePasses += r.Stats.TimePasses
